@@ -198,10 +198,10 @@ func init() {
 		if len(args) > 0 {
 			as = nativeArgs(args[len(args)-1])
 		}
-		panic(targetPanic{fmt.Sprint(as...)})
+		panic(targetPanic{iface{t: types.Typ[types.String], v: fmt.Sprint(as...)}})
 	}
 	logPanicf := func(fr *frame, args []value) value {
-		panic(targetPanic{fmt.Sprintf(args[0].(string), nativeArgs(args[1])...)})
+		panic(targetPanic{iface{t: types.Typ[types.String], v: fmt.Sprintf(args[0].(string), nativeArgs(args[1])...)}})
 	}
 	for _, n := range []string{"log.Panic", "log.Panicln", "log.Fatal", "log.Fatalln"} {
 		reg(n, logPanic)
